@@ -58,6 +58,10 @@ def explain(res):
         return "cosmosdb: item #%d that planToItems emitted for plan #%d differs from the model's (columns, pos or order of emission)" % (res[2], res[1])
     if k == 42:
         return "cosmosdb: the model's planToItems rejects plan #%d but the implementation emitted items" % res[1]
+    if k == 6:
+        return "step %d: the call (its context was cancelled at a random instant) returned nil, but the specification cannot succeed here" % res[1]
+    if k == 7:
+        return "step %d: the call (its context was cancelled at a random instant) returned an error, but the store is not the one before the call (nor, for Delete, the one after it): %s" % (res[1], explain_obs(res[2:]))
     if k == 8:
         return "unknown backend"
     if k == 9:
@@ -66,7 +70,7 @@ def explain(res):
 
 
 def failing_step(res):
-    if res and res != [0] and len(res) > 1 and res[0] in (1, 2, 4, 9):
+    if res and res != [0] and len(res) > 1 and res[0] in (1, 2, 4, 6, 7, 9):
         return res[1]
     return None
 
